@@ -1115,6 +1115,19 @@ func (e *CEnv) trCall(x *CExpr) CVal {
 			conj = append(conj, Forall([]*Term{r}, Implies(existed(r, v.entry.alloc), Eq(Select(cur, r), Select(ent, r))), Select(cur, r)))
 		}
 		return CVal{And(conj...), boolT}
+	case "fieldframe1": // fieldframe1(T.f, obj): every object other than obj that existed at function entry has its entry value of field f
+		name := e.heapNameOf(x.Args[0])
+		cur, ok := e.st.heaps[name]
+		if !ok {
+			return CVal{TTrue, boolT}
+		}
+		ent, ok := v.entry.heaps[name]
+		if !ok {
+			unsupported("contract: fieldframe1(%s): no entry version of the heap", x.Args[0])
+		}
+		ex := e.tr(x.Args[1])
+		r := v.fresh("q_fr", SInt)
+		return CVal{Forall([]*Term{r}, Implies(And(existed(r, v.entry.alloc), Neq(r, ex.T)), Eq(Select(cur, r), Select(ent, r))), Select(cur, r)), boolT}
 	case "existed": // the object existed before the call
 		a := e.tr(x.Args[0])
 		var b *Term
